@@ -136,6 +136,12 @@ Theorem C19_diag_matmul_size1_vector_refuted : forall n, n <> 1 ->
   torch_matmul_shape [n; n] [1] = None /\ pinned_diag_matmul [n; n] [1] = Ok [n].
 Proof. exact diag_matmul_size1_vector_refuted. Qed.
 
+(* ... while on every operand torch ACCEPTS the pinned Diag.matmul returns exactly torch's shape (all batches, all ranks):
+   the defect is confined to operands torch refuses *)
+Theorem C19_diag_matmul_valid_agrees : forall p n b s,
+  torch_matmul_shape (p ++ [n; n]) b = Some s -> pinned_diag_matmul (p ++ [n; n]) b = Ok s.
+Proof. exact diag_matmul_valid_agrees. Qed.
+
 Theorem C19_identity_matmul_wrong_inner_refuted : forall n m p, m <> n ->
   torch_matmul_shape [n; n] [m; p] = None /\ pinned_identity_matmul [n; n] [m; p] = Ok [m; p].
 Proof. exact identity_matmul_wrong_inner_refuted. Qed.
